@@ -9,6 +9,10 @@ CHECKS = {
           "Every (expression, binding) pair of the bounded fragment is parsed and evaluated by the implementation and compared structurally with an independent reference interpreter; each is also evaluated in a scope with unrelated extra entries and stacked contexts and must give the same value. Deviations that are recorded known findings are reproduced by the reference's deviation mode and attributed to their tag; anything else is a violation.",
           "Trusts harness/vh/src/ref_feel.rs as the FEEL semantics of the fragment; cases the DMN text leaves open are executed but not compared (counted). Operand values outside the alphabets and nesting beyond the bound are not covered.",
           "DESIGN.md §4 C01"),
+  "C09": ("exhaustive enumeration of all ordered pairs and triples of a 46-value alphabet covering every value kind, and of all pairs and triples of dense number / string / date lattices; algebraic laws checked between observations of the real evaluator",
+          "For every ordered pair: and/or truth tables, symmetry of =, != as negation of =, mirror laws of < > <= >=; for pairs of one ordered kind trichotomy and <= as (< or =); for every ordered triple of one ordered kind agreement of between, the four interval forms and the conjunction of comparisons. The universes are enumerated completely.",
+          "The laws relate two observations of the implementation, so no reference model is trusted (only the and/or truth tables). Values outside the alphabets and lattices are not covered.",
+          "DESIGN.md §4 C09"),
   "C13": ("bounded exhaustive enumeration: scope text before/after parse, prepare and repeated evaluation for every expression of the C01 space x 3 scope shapes; explicit enumeration of every operation sequence (prepared evaluator x scope, and evaluate_invocable x input on a shared ModelEvaluator) up to length 3 (quick) / 4 (thorough) with a differential oracle against pristine objects",
           "Every expression of the bounded fragment is parsed, prepared and evaluated three times in scopes of depth 1-3; the rendering of the caller's scope must be identical before and after each step and the three values equal. Every sequence of evaluations up to the length bound over 45 FEEL operations and 15 model operations is executed on fresh objects; each result must equal the result of the same operation on pristine objects and every scope / input context must read as initially.",
           "Observes state through Scope's and FeelContext's textual rendering and through results; hidden state that never influences a result within the length bound is not observable. Sequences are not deduplicated by state (the observable state is constant when the property holds, so deduplication would make the search vacuous).",
